@@ -45,6 +45,9 @@ impl Kind {
 pub struct ArgSpec {
     pub name: &'static str,
     pub ty: &'static str,
+    /// JSON text of the value a forwarded `#[serde(default = "..")]` gives an omitted member
+    /// ("" = the parameter carries no such attribute)
+    pub default: &'static str,
 }
 
 /// how a reply method takes the sub-message's data
